@@ -196,6 +196,7 @@ func checkC19(c *Ctx) {
 	// field elements are kept in Montgomery form: an integer enters the field only through the converting
 	// setter, so the generic inversion of an integer is preceded by the conversion
 	checkPrio3FieldTables(c, p, "C19.table")
+	checkOptionalFields(c, p, "C19.prep", []string{"vdaf/"})
 	// bit decomposition of a measurement: a value of exactly 2^bits does not fit and must be refused (it would be
 	// encoded as all zeros and pass the range proof); 2^bits - 1 fits - decided by constant propagation
 	for _, fp := range []string{"fp64", "fp128"} {
